@@ -2,7 +2,7 @@
 EXTENDS WbIcContract, Json, IOUtils
 T == JsonDeserialize(IOEnv.TRACES)
 VARIABLES tid, l, envbad, stall
-vars == <<tid, l, envbad, stall, open, incyc, served, waitc, owner, age, tofired, seen, obs>>
+vars == <<tid, l, envbad, stall, open, incyc, served, waitc, owner, age, ageu, tofired, seen, obs>>
 C == T[tid].cfg
 Init == /\ tid \in 1..Len(T) /\ l = 1 /\ envbad = FALSE /\ stall = 0 /\ CInit
 Next ==
